@@ -104,7 +104,7 @@ CHECKS = {
   technique="Lean 4 proof (state-machine invariant) over facts regenerated from source + differential correspondence"),
  "C16": dict(
   category="proof",
-  text="Lean 4 theorems over definitions REGENERATED from the shipped YAML and data/jobs/patch.py on every run: formula_mono (every one of the ~164 damage formulas in skill_level is non-decreasing over its reachable level range, by a kernel-checked checker with a generic soundness proof, so a new non-monotone formula breaks the build), formula_no_zero_division, hexa/v improvement monotone, skill_level_mono/explicit_zero for a hand model of SkillLevelPatch.get_skill_level, exclude_hexa_iff for the lower-tier exclusion rule; and, for a hand model of the providers' glue (SkillProfile.get_skill_levels, _compute_skill_levels, _compute_hexa_improvement_levels and the providers' positional calls; part file C16_Provider): provider_levels_are_the_configured_levels, provider_levels_defined_iff, lower_tier_present_iff_configured_level_zero (the exclusion rule in terms of the levels the USER configured), tied to both providers by a correspondence on all jobs with dict order. Building, unique names, the exclusion rule, no damage figure decreasing when one level is raised, and random plans running to completion are EXPLORED on the real code over the level grid (boundary grid quick, every axis value + joint sample thorough) for all jobs.",
+  text="Lean 4 theorems over definitions REGENERATED from the shipped YAML and data/jobs/patch.py on every run: formula_mono (every one of the ~164 damage formulas in skill_level is non-decreasing over its reachable level range, by a kernel-checked checker with a generic soundness proof, so a new non-monotone formula breaks the build), formula_no_zero_division, hexa/v improvement monotone, skill_level_mono/explicit_zero for a hand model of SkillLevelPatch.get_skill_level, exclude_hexa_iff for the lower-tier exclusion rule; and, for a hand model of the providers' glue (SkillProfile.get_skill_levels, _compute_skill_levels, _compute_hexa_improvement_levels and the providers' positional calls; part file C16_Provider): provider_levels_are_the_configured_levels, provider_levels_defined_iff, lower_tier_present_iff_configured_level_zero (the exclusion rule in terms of the levels the USER configured), tied to both providers by a correspondence on all jobs with dict order; and, on programs regenerated from the source (part file C16_Effects): build_path_never_alters_what_exists — build_skills, _exclude_hexa_skill and get_skill_components with the loader, the repository look-ups, Spec.interpret and the whole patch chain inlined write no object that existed before the call (no module-level cache), so a build cannot depend on earlier builds. Building, unique names, the exclusion rule, no damage figure decreasing when one level is raised, and random plans running to completion are EXPLORED on the real code over the level grid (boundary grid quick, every axis value + joint sample thorough) for all jobs.",
   design_ref="DESIGN.md §4 C16",
   note="Proof for monotonicity and exclusion; exploration for 'builds and runs'. Trusted: Lean kernel + standard axioms; py2lean YAML-formula translator (self-checked against the real patch results); level maxima taken from the property statement.",
   technique="Lean 4 proof over formulas regenerated from the YAML + level-grid exploration of builds"),
